@@ -2,7 +2,7 @@
    `exact`, so it is checked to be convertible with it); proofs in RcP.v (strong side) and RcWeakP.v (weak side) *)
 From Coq Require Import ZArith List Bool Lia Arith.
 Import ListNotations.
-Require Import Params StateW DisposeW ModularW RcSnapCheck RcSnapP RcSnapInvP RcWSnapInvP Rc RcSpec RcP RcWeakP.
+Require Import RcPinnedP RcWeakCountP Params StateW DisposeW ModularW RcSnapCheck RcSnapP RcSnapInvP RcWSnapInvP Rc RcSpec RcP RcWeakP.
 Local Open Scope Z_scope.
 
 Theorem C10_count_equals_owners :
@@ -28,3 +28,30 @@ Theorem C10_final :
 Proof. exact RcWSnapInvP.C10_final. Qed.
 Print Assumptions C10_final.
 
+(* ---- the weak half (weak_many): weak field = weak owners + token + the strong side's share (RcWeakCountP.v) *)
+Theorem C10_weak_count_equals_owners :
+  forall (s0 : state) (sched : list (nat * list Z)),
+       run_ok s0 sched ->
+       let s := mrun s0 sched in
+       forall (o : nat) (ob : obj),
+       geto s o = Some ob ->
+       freed ob = false ->
+       weak (word ob) = wowners s o + b2z (wtok ob) + (b2z (negb (dropped ob)) + gfr s o) /\
+       0 <= gfr s o /\ (weaked (word ob) = false -> weak (word ob) = 1).
+Proof. exact RcWeakCountP.C10_weak_count_equals_owners. Qed.
+Print Assumptions C10_weak_count_equals_owners.
+
+(* ---- H2 only where the model lacks the pin (RcPinnedP.v): the run hypothesis `pinned` (epochs carried by frames are within one
+   of the global epoch) is DERIVED for every thread that is inside a critical section - the epoch was read after the pin and the
+   section holds the clock - and remains an assumption (`pinned_out`, run_ok') only for threads outside one: deferred functions
+   run by an unpinned collector and guard-less operations, where the real code pins internally and the model does not *)
+Theorem C10_final_H2_outside_sections_only :
+  forall (s0 : state) (sched : list (nat * list Z)),
+       run_ok' s0 sched ->
+       let s := RcDepthP.mrun s0 sched in
+       forall (o : nat) (ob : obj),
+       geto s o = Some ob ->
+       destructed (word ob) = false ->
+       strong (word ob) = owners s o + b2z (tok ob) /\ (owners s o = 0 -> tok ob = false -> attempts s o = 1).
+Proof. exact RcPinnedP.C10_final'. Qed.
+Print Assumptions C10_final_H2_outside_sections_only.
